@@ -20,7 +20,7 @@ use push::{
 };
 use serde_json::{json, Value};
 
-use crate::fixtures::{Bare, Solo, Twin, Wide};
+use crate::fixtures::{Bare, Odd, Solo, Twin, Wide};
 
 pub trait Show {
     fn show(&self) -> String;
@@ -151,6 +151,15 @@ pub fn obs_wide(st: &Wide, _names: &[&str]) -> Value {
         "stacks": {"big_numbers": dump(&st.big_numbers), "flag": dump(&st.some_flags), "text": dump(&st.text)},
         "steps": st.step_budget,
         "inputs": map_inputs(&st.input_table),
+    })
+}
+
+pub fn obs_odd(st: &Odd, _names: &[&str]) -> Value {
+    json!({
+        "exec": dump(&st.program),
+        "stacks": {"num": dump(&st.numbers), "words": dump(&st.words)},
+        "steps": st.budget,
+        "inputs": map_inputs(&st.table),
     })
 }
 
